@@ -95,8 +95,9 @@ pub fn check_inv(inv : &Inv, runner : &Runner, is_last : bool, mut stats : Optio
     }
 
     let reported : Vec<Vec<String>> = actual.iter().filter_map(|e| match e { ErrClass::Contradiction(p) => Some(p.clone()), _ => None }).collect();
-    let mut exp_sorted = expected.clone(); exp_sorted.sort();
-    let mut rep_sorted = reported.clone(); rep_sorted.sort();
+    let canon = |v : &Vec<Vec<String>>| -> Vec<Vec<String>> { let mut v : Vec<Vec<String>> = v.iter().map(|x| { let mut x = x.clone(); x.sort(); x }).collect(); v.sort(); v };
+    let exp_sorted = canon(&expected);
+    let rep_sorted = canon(&reported);
     if exp_sorted != rep_sorted
     {
         let class =
